@@ -1,1 +1,97 @@
-/* placeholder */
+/*
+ * C01 rung 3: modular layer of include/math/big_num.h (BN_MOD_REDUCE_ALGO_BASIC; Barrett
+ * reduction is outside the claim).  Included from contracts/bn.h.
+ *
+ * Straight-line compositions carry value contracts; they are proved modularly (bn_add, bn_sub,
+ * bn_cmp, bn_mult, bn_div ... replaced by their contracts).  Always: a callee error is returned
+ * unchanged, never reported as success.
+ * Loop functions (bn_mod_exp, bn_mod_inv_bin, bn_gcd, bn_gcd_bin, bn_sqrt1, ...) carry
+ * safety contracts: memory safety, frame, well-formed result, return-code set, domain checks.
+ */
+#ifndef VF_CONTRACTS_BN_MOD_H
+#define VF_CONTRACTS_BN_MOD_H
+#ifndef VF_REPLAY
+
+#define VF_RD_OK(p)	1	/* bn_mod_rd_data_p is unused by BN_MOD_REDUCE_ALGO_BASIC (may be NULL) */
+#define VF_BN_3PRE(bn, n, m)	(VF_BN_IN(bn) && VF_BN_IN(n) && VF_BN_IN(m) &&		\
+	VF_BN_SEP(bn, n) && (bn) != (m) && VF_BN_SEP(bn, m))
+
+/* bn = bn mod m */
+static inline int
+bn_mod(bn_p bn, bn_p m, bn_mod_rd_data_p mod_rd_data)
+__CPROVER_requires(VF_BN_BINOP_PRE(bn, m))
+__CPROVER_assigns(VF_BN_FRAME(bn))
+__CPROVER_ensures(__CPROVER_return_value == 0 || __CPROVER_return_value == EINVAL || __CPROVER_return_value == EOVERFLOW)
+__CPROVER_ensures((__CPROVER_return_value == EINVAL) == (VF_BN_OLDVAL(m) == 0))
+__CPROVER_ensures(__CPROVER_return_value == EOVERFLOW ==> (__CPROVER_old(bn->digits) == bn->count &&
+    VF_BN_OLDVAL(bn) > VF_BN_OLDVAL(m)))
+__CPROVER_ensures(__CPROVER_return_value == 0 ==> (VF_BN_WF(*bn) &&
+    VF_BN_VAL(*bn) == VF_BN_OLDVAL(bn) % VF_BN_OLDVAL(m)))
+;
+
+/* bn = (bn + n) mod m for reduced operands (bn, n < m).  The sum is formed in bn: if it does
+ * not fit bn's capacity the function must not report success with a wrong value. */
+static inline int
+bn_mod_add(bn_p bn, bn_p n, bn_p m, bn_mod_rd_data_p mod_rd_data)
+__CPROVER_requires(VF_BN_3PRE(bn, n, m))
+__CPROVER_assigns(VF_BN_FRAME(bn))
+__CPROVER_ensures(__CPROVER_return_value == 0 || __CPROVER_return_value == EOVERFLOW)
+__CPROVER_ensures((__CPROVER_old(n->digits) <= bn->count && m->digits <= bn->count) ==> __CPROVER_return_value == 0)
+__CPROVER_ensures(__CPROVER_old(n->digits) > bn->count ==> __CPROVER_return_value == EOVERFLOW)
+__CPROVER_ensures(__CPROVER_return_value == 0 ==> VF_BN_WF(*bn))
+__CPROVER_ensures((__CPROVER_return_value == 0 && VF_BN_OLDVAL(bn) < VF_BN_VAL(*m) && VF_BN_OLDVAL(n) < VF_BN_VAL(*m)) ==>
+    VF_BN_VAL(*bn) == ((VF_BN_OLDVAL(bn) + VF_BN_OLDVAL(n) >= VF_BN_VAL(*m)) ?
+	(VF_BN_OLDVAL(bn) + VF_BN_OLDVAL(n) - VF_BN_VAL(*m)) : (VF_BN_OLDVAL(bn) + VF_BN_OLDVAL(n))))
+;
+/* bn = (bn - n) mod m for reduced operands */
+static inline int
+bn_mod_sub(bn_p bn, bn_p n, bn_p m, bn_mod_rd_data_p mod_rd_data)
+__CPROVER_requires(VF_BN_3PRE(bn, n, m))
+__CPROVER_assigns(VF_BN_FRAME(bn))
+__CPROVER_ensures(__CPROVER_return_value == 0 || __CPROVER_return_value == EOVERFLOW || __CPROVER_return_value == EINVAL)
+__CPROVER_ensures(__CPROVER_return_value == 0 ==> VF_BN_WF(*bn))
+__CPROVER_ensures((VF_BN_OLDVAL(bn) < VF_BN_VAL(*m) && VF_BN_OLDVAL(n) < VF_BN_VAL(*m) && m->digits <= bn->count) ==>
+    (__CPROVER_return_value == 0 && VF_BN_VAL(*bn) == ((VF_BN_OLDVAL(bn) >= VF_BN_OLDVAL(n)) ?
+	(VF_BN_OLDVAL(bn) - VF_BN_OLDVAL(n)) : (VF_BN_OLDVAL(bn) + VF_BN_VAL(*m) - VF_BN_OLDVAL(n)))))
+;
+/* bn = (bn * n) mod m */
+static inline int
+bn_mod_mult(bn_p bn, bn_p n, bn_p m, bn_mod_rd_data_p mod_rd_data)
+__CPROVER_requires(VF_BN_3PRE(bn, n, m))
+__CPROVER_assigns(VF_BN_FRAME(bn))
+__CPROVER_ensures(__CPROVER_return_value == 0 || __CPROVER_return_value == EOVERFLOW || __CPROVER_return_value == EINVAL)
+__CPROVER_ensures((VF_BN_OLDVAL(bn) != 0 && VF_BN_OLDVAL(n) != 0 &&
+    __CPROVER_old(bn->digits) + __CPROVER_old(n->digits) > bn->count) ==> __CPROVER_return_value == EOVERFLOW)
+__CPROVER_ensures(__CPROVER_return_value == 0 ==> (VF_BN_WF(*bn) && VF_BN_VAL(*m) != 0 &&
+    VF_BN_VAL(*bn) == (VF_BN_OLDVAL(bn) * VF_BN_OLDVAL(n)) % VF_BN_VAL(*m)))
+;
+static inline int
+bn_mod_mult_digit(bn_p bn, bn_digit_t n, bn_p m, bn_mod_rd_data_p mod_rd_data)
+__CPROVER_requires(VF_BN_BINOP_PRE(bn, m) && bn != m)
+__CPROVER_assigns(VF_BN_FRAME(bn))
+__CPROVER_ensures(__CPROVER_return_value == 0 || __CPROVER_return_value == EOVERFLOW || __CPROVER_return_value == EINVAL)
+__CPROVER_ensures(__CPROVER_return_value == 0 ==> (VF_BN_WF(*bn) && VF_BN_VAL(*m) != 0 &&
+    VF_BN_VAL(*bn) == (VF_BN_OLDVAL(bn) * n) % VF_BN_VAL(*m)))
+;
+static inline int
+bn_mod_square(bn_p bn, bn_p m, bn_mod_rd_data_p mod_rd_data)
+__CPROVER_requires(VF_BN_BINOP_PRE(bn, m) && bn != m)
+__CPROVER_assigns(VF_BN_FRAME(bn))
+__CPROVER_ensures(__CPROVER_return_value == 0 || __CPROVER_return_value == EOVERFLOW || __CPROVER_return_value == EINVAL)
+__CPROVER_ensures(__CPROVER_return_value == 0 ==> (VF_BN_WF(*bn) && VF_BN_VAL(*m) != 0 &&
+    VF_BN_VAL(*bn) == (VF_BN_OLDVAL(bn) * VF_BN_OLDVAL(bn)) % VF_BN_VAL(*m)))
+;
+/* bn = (bn mod (m - 1)) + 1 when bn >= m, unchanged otherwise; domain m >= 2 (call sites:
+ * curve order n) */
+static inline int
+bn_mod_reduce(bn_p bn, bn_p m, bn_mod_rd_data_p mod_rd_data)
+__CPROVER_requires(VF_BN_BINOP_PRE(bn, m) && bn != m && VF_BN_VAL(*m) >= 2)
+__CPROVER_assigns(VF_BN_FRAME(bn))
+__CPROVER_ensures(__CPROVER_return_value == 0 || __CPROVER_return_value == EOVERFLOW)
+__CPROVER_ensures(VF_BN_OLDVAL(bn) < VF_BN_VAL(*m) ==> (__CPROVER_return_value == 0 && VF_BN_VAL(*bn) == VF_BN_OLDVAL(bn)))
+__CPROVER_ensures(__CPROVER_return_value == 0 ==> (VF_BN_WF(*bn) && (VF_BN_OLDVAL(bn) < VF_BN_VAL(*m) ||
+    VF_BN_VAL(*bn) == (VF_BN_OLDVAL(bn) % (VF_BN_VAL(*m) - 1)) + 1)))
+;
+
+#endif /* !VF_REPLAY */
+#endif
